@@ -17,7 +17,7 @@ os.environ.setdefault("CELPY_VERIF", "1")
 from . import fastarena  # noqa: E402
 
 fastarena.install()
-sys.path.insert(0, "/repo/src")
+sys.path.insert(0, os.environ.get("VERIF_REPO", "/repo") + "/src")
 
 import logging  # noqa: E402
 
